@@ -188,6 +188,12 @@ def info_key(ctx, rule="INFO-KEY"):
                 searches = [(c, cname(prog, t)) for c in unit for bb, t in c.calls()
                             if re.search(r"Iterator>?::(find|position|find_map)$|::(rfind|rposition)$", cname(prog, t)) and "(std::string::String, internal::value::Value)" in (t.get("written") or "")]
                 from_end = [x for x in searches if "Rev<" in x[1] or x[1].endswith(("rfind", "rposition"))]
+                # the assignment looked up is the one for THIS key column: index_for_column_name(name) == Some(index)
+                cmpc = [(c, cname(prog, t)) for c in unit for bb, t in c.calls() if re.search(r"PartialEq(<[^>]*>)?>?::(eq|ne)$", cname(prog, t)) and
+                        any("index_for_column_name" in Sym(prog, c).val(a) for a in t["args"])]
+                ctx.check(bool(cmpc) and all(n_.endswith("::eq") for (c, n_) in cmpc), rule, "%s: predicted keys use the assignment of the same column" % short(f.name), "",
+                          "the key pre-check of %s selects an assignment with %s on the column index: it predicts the key from an assignment to a different column" % (
+                              short(f.name), [n_.rsplit("::", 1)[-1] for (c, n_) in cmpc]), f.loc(), fn=f.name, key="%s|%s|same-column" % (rule, short(f.name)))
                 ctx.check(bool(searches) and len(from_end) == len(searches), rule, "%s: predicted keys use the last assignment to a column" % short(f.name), str([x[1][-40:] for x in searches]),
                           "the key pre-check of %s looks up the assignment for a key column from the front of the SET list (%s) while the assignments are applied in order, the last one "
                           "winning: `SET K = 7, K = 2` is checked as 7 and stored as 2" % (short(f.name), [x[1][-40:] for x in searches]), f.loc(), fn=f.name,
@@ -442,7 +448,8 @@ def limit_w(ctx):
                 if nm:
                     widths[(tbl, nm[0])] = int(args[1][2:])
     # the definitions built into the library describe the catalog tables of every real package: widths are the format's
-    REFW = {("_Tables", "Name"): 64, ("_Columns", "Table"): 64, ("_Columns", "Name"): 64, ("_Validation", "Table"): 32, ("_Validation", "Column"): 32}
+    REFW = {("_Tables", "Name"): 64, ("_Columns", "Table"): 64, ("_Columns", "Name"): 64, ("_Validation", "Table"): 32, ("_Validation", "Column"): 32,
+            ("_Validation", "Nullable"): 4, ("_Validation", "KeyTable"): 255, ("_Validation", "Category"): 32, ("_Validation", "Set"): 255, ("_Validation", "Description"): 255}
     for k, w in sorted(REFW.items()):
         ctx.check(widths.get(k) == w, R, "%s.%s is %d characters wide" % (k[0], k[1], w), str(widths.get(k)),
                   "the built-in definition of %s.%s is %s characters wide; packages in the field declare %d: create_table's pre-validation (against the built-in definition) and the "
